@@ -67,6 +67,57 @@ def search(ck, tier, seed):
             if max(errs) > tol or any(math.isnan(v) for v in errs):
                 ck.finding("logabsdet:not-log-det-jacobian:%s" % e["name"],
                            "%s: |logabsdet - log|det J|| = %s (D=%d)" % (e["name"], ["%.3g" % v for v in errs], D), case)
+    # parameters far from their initial values (scales of 1e-4 .. 1e4): guards, clamps and epsilons that only act out there must
+    # change the map and its log-abs-det together
+    from nflows.transforms import normalization as norm_, standard as std_, lu as lu_, nonlinearities as nl_
+
+    def extreme():
+        def actnorm(ls, img):
+            t = norm_.ActNorm(len(ls)).double()
+            with torch.no_grad():
+                t.log_scale.copy_(torch.tensor(ls, dtype=torch.float64))
+                t.shift.copy_(torch.linspace(-1.0, 2.0, len(ls), dtype=torch.float64))
+                t.initialized.fill_(True)
+            return t.eval(), ([len(ls), 2, 3] if img else [len(ls)])
+        yield "ActNorm(log_scale 7.5, -0.3, -8)", actnorm([7.5, -0.3, -8.0], False)
+        yield "ActNorm(image, log_scale 9, -9)", actnorm([9.0, -9.0], True)
+        for nm_, stds in (("narrow", [1e-4, 1.0, 3.0]), ("wide", [1e4, 1.0, 0.2])):
+            t = norm_.ActNorm(3).double().train()
+            g_ = tgen(seed, "c01x", nm_)
+            with torch.no_grad():
+                t(torch.randn(16, 3, generator=g_, dtype=torch.float64) * torch.tensor(stds, dtype=torch.float64) + 0.5)
+            yield "ActNorm(initialised on a %s feature)" % nm_, (t.eval(), [3])
+        t = norm_.BatchNorm(3).double()
+        with torch.no_grad():
+            t.running_var.copy_(torch.tensor([1e-8, 1.0, 1e8], dtype=torch.float64))
+            t.running_mean.copy_(torch.tensor([0.3, -1.0, 2.0], dtype=torch.float64))
+            t.unconstrained_weight.copy_(torch.tensor([-20.0, 0.0, 20.0], dtype=torch.float64))
+        yield "BatchNorm(eval, running_var 1e-8..1e8, weights -20..20)", (t.eval(), [3])
+        yield "PointwiseAffine(scale 1e-6, 1, 1e6)", (std_.PointwiseAffineTransform(torch.tensor([0.1, 0.2, -0.3], dtype=torch.float64),
+                                                                                   torch.tensor([1e-6, -1.0, 1e6], dtype=torch.float64)), [3])
+        t = lu_.LULinear(3, identity_init=False).double()
+        with torch.no_grad():
+            t.unconstrained_upper_diag.copy_(torch.tensor([-15.0, 0.0, 15.0], dtype=torch.float64))
+        yield "LULinear(unconstrained diagonal -15, 0, 15)", (t.eval(), [3])
+        yield "Sigmoid(temperature 25)", (nl_.Sigmoid(temperature=25.0).double(), [3])
+        yield "Sigmoid(temperature 0.01)", (nl_.Sigmoid(temperature=0.01).double(), [3])
+    ex = attempt(lambda: list(extreme()))
+    if ex[0] != "ok":
+        ck.finding("transform:constructor-fails:extreme-parameters", "%s %s" % (ex[1], ex[2]), {"search": "extreme-parameters", "seed": seed})
+    for name, made in (ex[1] if ex[0] == "ok" else []):
+        t, shape = made
+        g_ = tgen(seed, "c01xx", name)
+        x = torch.randn([3] + shape, generator=g_, dtype=torch.float64) * (0.02 if "Sigmoid(temperature 25" in name else 1.0)
+        ck.case(("c01-extreme", name), nontrivial=True)
+        case = {"search": "extreme-parameters", "entry": name, "seed": seed}
+        r = attempt(jacobian_check, t, x, None)
+        if r[0] != "ok":
+            ck.finding("transform:forward-or-jacobian-fails:%s" % name, "%s: %s %s" % (name, r[1], r[2]), case)
+            continue
+        errs, D, lad = r[1]
+        if max(errs) > 1e-7 * max(1, D) or any(math.isnan(v) for v in errs):
+            ck.finding("logabsdet:not-log-det-jacobian:%s" % name,
+                       "%s: |logabsdet - log|det J|| = %s (D=%d)" % (name, ["%.3g" % v for v in errs], D), case)
     # public spline functions with non-default boxes, knots and end points
     for fam in sh.FAMILIES:
         for K in ([1, 3] if tier == "quick" else [1, 2, 3, 5]):
